@@ -165,8 +165,11 @@ int process_tarball(sqfs_dir_iterator_t *it, sqfs_writer_t *sqfs)
 		ret = it->next(it, &ent);
 		if (ret > 0)
 			break;
-		if (ret < 0)
+		if (ret < 0) {
+			/* not every failure is reported by the tar reader */
+			sqfs_perror(NULL, "reading tar archive", ret);
 			return -1;
+		}
 
 		if (ent->mtime < 0)
 			ent->mtime = 0;
